@@ -1,6 +1,1189 @@
-//! C07 — not built yet.
-use crate::core::Ctx;
+//! C07 — integer text and byte encodings round-trip and match the reference digits.
+//!
+//! Oracles (none shares code with dashu):
+//!  * digits: `num_bigint::BigUint::to_str_radix` / `parse_bytes`, cross-checked at start-up against
+//!    a schoolbook conversion on u32 limbs and Rust's primitive formatting;
+//!  * layout: a re-implementation of `Formatter::pad_integral` written from the std::fmt docs,
+//!    cross-checked at start-up against Rust's own formatting of u128/i128, and (where the value
+//!    fits) Rust's own formatting directly;
+//!  * parser: the documented grammar (sign? prefix? digits with `_` separators, either case);
+//!  * bytes: `BigUint::from_bytes_le/be`, `BigInt::from_signed_bytes_le/be`;
+//!  * chunks: the definition (shift + mask, sum of C_i * 2^(i*b)).
+
+use crate::core::{guard, trunc, Ctx, Rec};
+use crate::h::*;
+use crate::uni::*;
+use dashu_base::ParseError;
+use dashu_int::{IBig, Sign, UBig};
+use num_bigint::{BigInt, BigUint};
+use num_traits::{One, ToPrimitive, Zero};
+use std::collections::BTreeSet;
+
+#[path = "h07.rs"]
+mod h07;
+use h07::*;
+
+const P: &str = "C07";
+
+// ---------------------------------------------------------------------------------------------
+// (a) print -> parse round trip and digit correctness
+
+#[derive(Clone, Copy, PartialEq)]
+enum Depth {
+    /// every call form and every text variant
+    Full,
+    /// large values: one print + the parse variants that have their own code path
+    Lean,
+}
+
+fn expect_parsed_i(rec: &mut Rec, site: &str, class: &str, got: Result<Result<IBig, ParseError>, String>, want: &BigInt, case: impl FnOnce() -> String) -> bool {
+    rec.step();
+    match got {
+        Ok(Ok(v)) => {
+            let g = i_to_ref(&v);
+            if &g != want {
+                rec.fail(format!("{}|{}|wrong-value|{}", P, site, class), case(), hex(&g), hex(want));
+                return false;
+            }
+            return true;
+        }
+        Ok(Err(e)) => rec.fail(format!("{}|{}|rejected-valid|{}", P, site, class), case(), format!("Err({:?})", e), hex(want)),
+        Err(p) => rec.fail(format!("{}|{}|panic|{}", P, site, class), case(), format!("panic: {}", p), hex(want)),
+    }
+    false
+}
+
+fn expect_parsed_u(rec: &mut Rec, site: &str, class: &str, got: Result<Result<UBig, ParseError>, String>, want: &BigUint, case: impl FnOnce() -> String) -> bool {
+    expect_parsed_i(rec, site, class, got.map(|r| r.map(IBig::from)), &BigInt::from(want.clone()), case)
+}
+
+fn expect_parsed_ir(rec: &mut Rec, site: &str, class: &str, got: Result<Result<(IBig, u32), ParseError>, String>, want: &BigInt, radix: u32, case: impl FnOnce() -> String) {
+    rec.step();
+    match got {
+        Ok(Ok((v, r))) => {
+            let g = i_to_ref(&v);
+            if &g != want || r != radix {
+                rec.fail(format!("{}|{}|wrong-value|{}", P, site, class), case(), format!("({}, radix {})", hex(&g), r), format!("({}, radix {})", hex(want), radix));
+            }
+        }
+        Ok(Err(e)) => rec.fail(format!("{}|{}|rejected-valid|{}", P, site, class), case(), format!("Err({:?})", e), hex(want)),
+        Err(p) => rec.fail(format!("{}|{}|panic|{}", P, site, class), case(), format!("panic: {}", p), hex(want)),
+    }
+}
+
+/// Debug: "least and most significant digits, omitting the middle when too large"; `{:#?}` adds
+/// digit and bit length.
+fn check_debug(rec: &mut Rec, ty: &str, plain: Result<String, String>, pretty: Result<String, String>, v: &BigInt, class: &str) {
+    let mag = v.magnitude();
+    let dec = mag.to_str_radix(10);
+    let sign = if is_neg(v) { "-" } else { "" };
+    let case = || format!("{{:?}} of {}", hex(v));
+    rec.step();
+    let plain_text = match plain {
+        Err(p) => {
+            rec.fail(format!("{}|{}::Debug|panic|{}", P, ty, class), case(), format!("panic: {}", p), "abbreviated decimal digits");
+            return;
+        }
+        Ok(t) => t,
+    };
+    let mut ok = false;
+    if let Some(body) = plain_text.strip_prefix(sign) {
+        if body == dec {
+            ok = true;
+            rec.hit("debug:full");
+        } else if let Some((h, l)) = body.split_once("..") {
+            let digits = |s: &str| !s.is_empty() && s.bytes().all(|b| b.is_ascii_digit());
+            if digits(h) && digits(l) && dec.starts_with(h) && dec.ends_with(l) && h.len() + l.len() < dec.len() {
+                ok = true;
+                rec.hit("debug:abbreviated");
+            }
+        }
+    }
+    if !ok {
+        rec.fail(
+            format!("{}|{}::Debug|wrong-text|{}", P, ty, class),
+            case(),
+            trunc(&plain_text, 200),
+            format!("{}<all digits> or {}<leading digits>..<trailing digits> of {}", sign, sign, trunc(&dec, 120)),
+        );
+        return;
+    }
+    rec.step();
+    match pretty {
+        Err(p) => rec.fail(format!("{}|{}::Debug#|panic|{}", P, ty, class), case(), format!("panic: {}", p), "digits + (digits: n, bits: m)"),
+        Ok(t) => {
+            let want = |nd: usize| format!("{} (digits: {}, bits: {})", plain_text, nd, mag.bits());
+            if mag.is_zero() {
+                // number of digits of zero: not specified by the docs (the tests pin 0)
+                rec.hit("unspecified:debug-digit-count-of-zero");
+                if t != want(0) && t != want(1) {
+                    rec.fail(format!("{}|{}::Debug#|wrong-text|zero", P, ty), case(), t, want(0));
+                }
+            } else if t != want(dec.len()) {
+                rec.fail(format!("{}|{}::Debug#|wrong-text|{}", P, ty, class), case(), trunc(&t, 200), trunc(&want(dec.len()), 200));
+            }
+        }
+    }
+}
+
+/// One value in one radix: every print form against the reference digits, every parse form of
+/// the printed text against the value.
+fn text_case(rec: &mut Rec, v: &BigInt, r: u32, known_lower: Option<&str>, depth: Depth) {
+    let mag = v.magnitude();
+    let negv = is_neg(v);
+    let lower_owned;
+    let lower: &str = match known_lower {
+        Some(s) => s,
+        None => {
+            lower_owned = mag.to_str_radix(r);
+            &lower_owned
+        }
+    };
+    let n = lower.len();
+    let sign = if negv { "-" } else { "" };
+    let words = word_len(mag);
+    let fc = fmt_class(words, n, r);
+    let pc = parse_class(if mag.is_zero() { 0 } else { n }, r);
+    rec.hit(&format!("fmt:{}", fc));
+    rec.hit(&format!("parse:{}", pc));
+    let fclass = format!("{},{}", rclass(r), fc);
+    let fclass = fclass.as_str();
+    let full = depth == Depth::Full;
+    let iv = ref_to_i(v);
+    let uv = if negv { None } else { Some(ref_to_u(mag)) };
+    let case = |what: &str| {
+        let h = hex(v);
+        format!("{} of {} (radix {}, {} digits)", what, h, r, n)
+    };
+
+    // ---- printing
+    let want_lower = format!("{}{}", sign, lower);
+    // the other print forms run the same digit generator: when the basic form is already wrong
+    // they are not reported again for this case (one root cause, few signatures)
+    let print_ok = expect_text(rec, "IBig::in_radix", fclass, guard(|| format!("{}", iv.in_radix(r))), &want_lower, || case("{}"));
+    let upper = lower.to_ascii_uppercase();
+    let want_upper = format!("{}{}", sign, upper);
+    if !print_ok {
+        rec.hit("print-forms-skipped-after-failure");
+    }
+    let uv = if print_ok { uv } else { None };
+    if print_ok && (r > 10 || full) {
+        expect_text(rec, "IBig::in_radix#", fclass, guard(|| format!("{:#}", iv.in_radix(r))), &want_upper, || case("{:#}"));
+    }
+    if let Some(u) = &uv {
+        expect_text(rec, "UBig::in_radix", fclass, guard(|| format!("{}", u.in_radix(r))), lower, || case("{}"));
+        if full {
+            expect_text(rec, "UBig::in_radix#", fclass, guard(|| format!("{:#}", u.in_radix(r))), &upper, || case("{:#}"));
+        }
+    }
+    match if print_ok { r } else { 0 } {
+        10 => {
+            expect_text(rec, "IBig::Display", fclass, guard(|| format!("{}", iv)), &want_lower, || case("Display"));
+            if let Some(u) = &uv {
+                expect_text(rec, "UBig::Display", fclass, guard(|| u.to_string()), lower, || case("to_string"));
+            }
+            let dclass = size_class(words);
+            check_debug(rec, "IBig", guard(|| format!("{:?}", iv)), guard(|| format!("{:#?}", iv)), v, dclass);
+            if let Some(u) = &uv {
+                check_debug(rec, "UBig", guard(|| format!("{:?}", u)), guard(|| format!("{:#?}", u)), v, dclass);
+            }
+        }
+        2 => {
+            expect_text(rec, "IBig::Binary", fclass, guard(|| format!("{:b}", iv)), &want_lower, || case("{:b}"));
+            expect_text(rec, "IBig::Binary#", fclass, guard(|| format!("{:#b}", iv)), &format!("{}0b{}", sign, lower), || case("{:#b}"));
+            if let Some(u) = &uv {
+                expect_text(rec, "UBig::Binary", fclass, guard(|| format!("{:b}", u)), lower, || case("{:b}"));
+                expect_text(rec, "UBig::Binary#", fclass, guard(|| format!("{:#b}", u)), &format!("0b{}", lower), || case("{:#b}"));
+            }
+        }
+        8 => {
+            expect_text(rec, "IBig::Octal", fclass, guard(|| format!("{:o}", iv)), &want_lower, || case("{:o}"));
+            expect_text(rec, "IBig::Octal#", fclass, guard(|| format!("{:#o}", iv)), &format!("{}0o{}", sign, lower), || case("{:#o}"));
+            if let Some(u) = &uv {
+                expect_text(rec, "UBig::Octal", fclass, guard(|| format!("{:o}", u)), lower, || case("{:o}"));
+                expect_text(rec, "UBig::Octal#", fclass, guard(|| format!("{:#o}", u)), &format!("0o{}", lower), || case("{:#o}"));
+            }
+        }
+        16 => {
+            expect_text(rec, "IBig::LowerHex", fclass, guard(|| format!("{:x}", iv)), &want_lower, || case("{:x}"));
+            expect_text(rec, "IBig::UpperHex", fclass, guard(|| format!("{:X}", iv)), &want_upper, || case("{:X}"));
+            expect_text(rec, "IBig::LowerHex#", fclass, guard(|| format!("{:#x}", iv)), &format!("{}0x{}", sign, lower), || case("{:#x}"));
+            expect_text(rec, "IBig::UpperHex#", fclass, guard(|| format!("{:#X}", iv)), &format!("{}0x{}", sign, upper), || case("{:#X}"));
+            if let Some(u) = &uv {
+                expect_text(rec, "UBig::LowerHex", fclass, guard(|| format!("{:x}", u)), lower, || case("{:x}"));
+                expect_text(rec, "UBig::UpperHex", fclass, guard(|| format!("{:X}", u)), &upper, || case("{:X}"));
+                expect_text(rec, "UBig::LowerHex#", fclass, guard(|| format!("{:#x}", u)), &format!("0x{}", lower), || case("{:#x}"));
+                expect_text(rec, "UBig::UpperHex#", fclass, guard(|| format!("{:#X}", u)), &format!("0x{}", upper), || case("{:#X}"));
+            }
+        }
+        _ => {}
+    }
+
+    if mag > &BigUint::one() {
+        rec.nontrivial();
+    }
+
+    // ---- parsing the printed text back
+    let pcl = |variant: &str| format!("{},{},{}", rclass(r), pc, variant);
+    let pcase = |s: &str| format!("parse {:?} in radix {}", trunc(s, 120), r);
+    let parse_ok = expect_parsed_i(rec, "IBig::from_str_radix", &pcl("plain"), guard(|| IBig::from_str_radix(&want_lower, r)), v, || pcase(&want_lower));
+    if !parse_ok {
+        // the variants below go through the same converter
+        rec.hit("parse-forms-skipped-after-failure");
+        return;
+    }
+    if r > 10 {
+        expect_parsed_i(rec, "IBig::from_str_radix", &pcl("upper"), guard(|| IBig::from_str_radix(&want_upper, r)), v, || pcase(&want_upper));
+        if full {
+            let mixed: String = want_lower.chars().enumerate().map(|(i, c)| if i % 2 == 0 { c.to_ascii_uppercase() } else { c }).collect();
+            expect_parsed_i(rec, "IBig::from_str_radix", &pcl("mixed-case"), guard(|| IBig::from_str_radix(&mixed, r)), v, || pcase(&mixed));
+        }
+    }
+    // underscores between digits (documented separator), groups of 4 from the right
+    let us = format!("{}{}", sign, with_underscores(lower, 4));
+    let pc_us = parse_class(if mag.is_zero() { 0 } else if r.is_power_of_two() { us.len() - sign.len() } else { n }, r);
+    let us_class = format!("{},{},underscores", rclass(r), pc_us);
+    expect_parsed_i(rec, "IBig::from_str_radix", &us_class, guard(|| IBig::from_str_radix(&us, r)), v, || pcase(&us));
+    if n > 4 {
+        rec.hit("parse:underscores");
+    }
+    if full {
+        let z = format!("{}000{}", sign, lower);
+        expect_parsed_i(rec, "IBig::from_str_radix", &pcl("leading-zeros"), guard(|| IBig::from_str_radix(&z, r)), v, || pcase(&z));
+    }
+    if !negv {
+        let plus = format!("+{}", lower);
+        expect_parsed_i(rec, "IBig::from_str_radix", &pcl("plus"), guard(|| IBig::from_str_radix(&plus, r)), v, || pcase(&plus));
+        expect_parsed_u(rec, "UBig::from_str_radix", &pcl("plain"), guard(|| UBig::from_str_radix(lower, r)), mag, || pcase(lower));
+        if full {
+            expect_parsed_u(rec, "UBig::from_str_radix", &pcl("plus"), guard(|| UBig::from_str_radix(&plus, r)), mag, || pcase(&plus));
+            expect_parsed_u(rec, "UBig::from_str_radix", &us_class, guard(|| UBig::from_str_radix(&us, r)), mag, || pcase(&us));
+            if r > 10 {
+                expect_parsed_u(rec, "UBig::from_str_radix", &pcl("upper"), guard(|| UBig::from_str_radix(&upper, r)), mag, || pcase(&upper));
+            }
+        }
+    }
+    match r {
+        10 => {
+            expect_parsed_i(rec, "IBig::from_str", &pcl("plain"), guard(|| want_lower.parse::<IBig>()), v, || pcase(&want_lower));
+            expect_parsed_ir(rec, "IBig::from_str_with_radix_prefix", &pcl("no-prefix"), guard(|| IBig::from_str_with_radix_prefix(&want_lower)), v, 10, || pcase(&want_lower));
+            if !negv {
+                expect_parsed_u(rec, "UBig::from_str", &pcl("plain"), guard(|| lower.parse::<UBig>()), mag, || pcase(lower));
+            }
+        }
+        2 | 8 | 16 => {
+            let pre = match r {
+                2 => "0b",
+                8 => "0o",
+                _ => "0x",
+            };
+            let s = format!("{}{}{}", sign, pre, lower);
+            expect_parsed_ir(rec, "IBig::from_str_with_radix_prefix", &pcl("prefix"), guard(|| IBig::from_str_with_radix_prefix(&s)), v, r, || pcase(&s));
+            if !negv {
+                let got = guard(|| UBig::from_str_with_radix_prefix(&s).map(|(u, r)| (IBig::from(u), r)));
+                expect_parsed_ir(rec, "UBig::from_str_with_radix_prefix", &pcl("prefix"), got, v, r, || pcase(&s));
+            }
+            if r == 16 && full {
+                let s = format!("{}{}{}", sign, pre, upper);
+                expect_parsed_ir(rec, "IBig::from_str_with_radix_prefix", &pcl("prefix,upper"), guard(|| IBig::from_str_with_radix_prefix(&s)), v, r, || pcase(&s));
+            }
+        }
+        _ => {
+            if full {
+                expect_parsed_ir(rec, "IBig::from_str_with_radix_default", &pcl("no-prefix"), guard(|| IBig::from_str_with_radix_default(&want_lower, r)), v, r, || pcase(&want_lower));
+            }
+        }
+    }
+}
+
+// ---------------------------------------------------------------------------------------------
+// (b) formatter flags
+
+const WIDTHS_Q: [Option<usize>; 6] = [None, Some(0), Some(1), Some(5), Some(40), Some(400)];
+const WIDTHS_T: [Option<usize>; 14] = [None, Some(0), Some(1), Some(2), Some(3), Some(5), Some(39), Some(40), Some(41), Some(64), Some(100), Some(387), Some(400), Some(1000)];
+
+fn compare_layouts(rec: &mut Rec, site: &str, rkind: &str, got: Result<Vec<(Spec, String)>, String>, v: &BigInt, digits_for: &dyn Fn(&Spec) -> (String, &'static str), prim: Option<&Vec<(Spec, String)>>, what: &str) {
+    let got = match got {
+        Ok(g) => g,
+        Err(p) => {
+            rec.step();
+            rec.fail(format!("{}|{}|panic|{}", P, site, rkind), format!("formatting {} with every flag combination ({})", hex(v), what), format!("panic: {}", p), "text");
+            return;
+        }
+    };
+    // layout is judged only for traits whose flag-less rendering has the right digits (digit bugs
+    // belong to the text.* sweeps and must not be multiplied by the number of flag combinations)
+    let mut bad_ty: Vec<&'static str> = vec![];
+    for (spec, text) in got.iter() {
+        if spec.a.is_empty() && !spec.plus && !spec.alt && !spec.zero && spec.w.is_none() {
+            let (digits, _) = digits_for(spec);
+            let want = format!("{}{}", if is_neg(v) { "-" } else { "" }, digits);
+            if text != &want {
+                rec.step();
+                bad_ty.push(spec.ty);
+                rec.fail(format!("{}|{}|wrong-digits|{}", P, site, rkind), format!("format!(\"{}\", {}) [{}]", spec.show(), hex(v), what), trunc(text, 300), trunc(&want, 300));
+            }
+        }
+    }
+    for (k, (spec, text)) in got.iter().enumerate() {
+        if bad_ty.contains(&spec.ty) {
+            continue;
+        }
+        rec.step();
+        let (digits, prefix) = digits_for(spec);
+        let want = pad_integral(spec, !is_neg(v), prefix, &digits);
+        let content = digits.len() + if is_neg(v) || spec.plus { 1 } else { 0 } + if spec.alt { prefix.len() } else { 0 };
+        let mode = pad_mode(spec, content);
+        rec.hit(&format!("pad:{}", mode));
+        let model_ok = text == &want;
+        if !model_ok {
+            rec.fail(format!("{}|{}|wrong-layout|{},{}", P, site, mode, rkind), format!("format!(\"{}\", {}) [{}]", spec.show(), hex(v), what), trunc(text, 300), trunc(&want, 300));
+        }
+        // Rust's own formatting of the same number, where a primitive can hold it (reported only
+        // when the model did not already report the same text)
+        if let (Some(pv), true) = (prim, model_ok) {
+            let (ps, pt) = &pv[k];
+            debug_assert!(ps.show() == spec.show());
+            rec.step();
+            rec.hit("compared-with-primitive");
+            if pt != text {
+                rec.fail(format!("{}|{}|differs-from-primitive|{},{}", P, site, mode, rkind), format!("format!(\"{}\", {}) [{}]", spec.show(), hex(v), what), trunc(text, 300), trunc(pt, 300));
+            }
+        }
+    }
+}
+
+fn flags_traits_case(rec: &mut Rec, v: &BigInt, widths: &[Option<usize>]) {
+    let mag = v.magnitude();
+    let (bin, oct, dec, hexl) = (mag.to_str_radix(2), mag.to_str_radix(8), mag.to_str_radix(10), mag.to_str_radix(16));
+    let hexu = hexl.to_ascii_uppercase();
+    let digits_for = |s: &Spec| -> (String, &'static str) {
+        match s.ty {
+            "" => (dec.clone(), ""),
+            "b" => (bin.clone(), "0b"),
+            "o" => (oct.clone(), "0o"),
+            "x" => (hexl.clone(), "0x"),
+            _ => (hexu.clone(), "0x"),
+        }
+    };
+    let iv = ref_to_i(v);
+    // primitive: i128 formats negative numbers in radix 2/8/16 as two's complement, which the
+    // property excludes ("'-' followed by its magnitude"); so the direct comparison is made for
+    // non-negative values (all five traits, as u128) and for negative values in Display only.
+    let prim: Option<Vec<(Spec, String)>> = if !is_neg(v) { mag.to_u128().map(|p| layouts_all(&p, widths)) } else { None };
+    compare_layouts(rec, "IBig::fmt(flags)", if is_neg(v) { "neg" } else { "nonneg" }, guard(|| layouts_all(&iv, widths)), v, &digits_for, prim.as_ref(), "Display/Binary/Octal/LowerHex/UpperHex");
+    if is_neg(v) {
+        if let Some(p) = v.to_i128() {
+            let pl = layouts_display(&p, widths);
+            let dd = |_: &Spec| (dec.clone(), "");
+            compare_layouts(rec, "IBig::fmt(flags)", "neg,display", guard(|| layouts_display(&iv, widths)), v, &dd, Some(&pl), "Display vs i128");
+        }
+    } else {
+        let uv = ref_to_u(mag);
+        compare_layouts(rec, "UBig::fmt(flags)", "nonneg", guard(|| layouts_all(&uv, widths)), v, &digits_for, prim.as_ref(), "Display/Binary/Octal/LowerHex/UpperHex");
+    }
+    rec.nontrivial();
+}
+
+fn flags_in_radix_case(rec: &mut Rec, v: &BigInt, r: u32, widths: &[Option<usize>]) {
+    let mag = v.magnitude();
+    let lower = mag.to_str_radix(r);
+    let upper = lower.to_ascii_uppercase();
+    // InRadix: no prefix; `#` selects upper-case letters
+    let digits_for = |s: &Spec| -> (String, &'static str) { (if s.alt { upper.clone() } else { lower.clone() }, "") };
+    let iv = ref_to_i(v);
+    let rk = format!("{},{}", if r.is_power_of_two() { "pow2" } else { "nonpow2" }, if is_neg(v) { "neg" } else { "nonneg" });
+    // Rust's own formatting where it exists without prefix/case differences: radix 10, plain flags
+    let prim: Option<Vec<(Spec, String)>> = None;
+    compare_layouts(rec, "IBig::in_radix(flags)", &rk, guard(|| layouts_display(&iv.in_radix(r), widths)), v, &digits_for, prim.as_ref(), &format!("in_radix({})", r));
+    if !is_neg(v) {
+        let uv = ref_to_u(mag);
+        compare_layouts(rec, "UBig::in_radix(flags)", &rk, guard(|| layouts_display(&uv.in_radix(r), widths)), v, &digits_for, None, &format!("in_radix({})", r));
+    }
+    rec.nontrivial();
+}
+
+// ---------------------------------------------------------------------------------------------
+// (c) parser on all short strings
+
+const SIGMA: [char; 18] = ['0', '1', '9', 'a', 'f', 'z', '_', '.', '-', '+', 'e', '@', 'x', 'p', ' ', 'é', 'F', 'Z'];
+const SIGMA_PREFIX: [char; 16] = ['0', '1', '7', '9', 'a', 'f', 'b', 'o', 'x', 'B', 'X', '_', '-', '+', 'z', ' '];
+
+type Parsed = Result<(bool, Option<u128>, u32), ParseError>;
+
+fn read_u(x: &UBig, r: u32) -> (bool, Option<u128>, u32) {
+    (false, words_u128(x.as_words()), r)
+}
+fn read_i(x: &IBig, r: u32) -> (bool, Option<u128>, u32) {
+    let (s, w) = x.as_sign_words();
+    (s == Sign::Negative, words_u128(w), r)
+}
+
+fn judge(rec: &mut Rec, site: &str, s: &str, default_radix: u32, minus_ok: bool, prefix: bool, got: Result<Parsed, String>) {
+    rec.step();
+    let (neg, radix, verdict) = verdict(s, default_radix, minus_ok, prefix);
+    let rc = if prefix { format!("default-{}", rclass(default_radix)) } else { rclass(default_radix).to_string() };
+    let case = || format!("{}({:?}{})", site, s, if prefix && default_radix == 10 { String::new() } else { format!(", {}", default_radix) });
+    let got = match got {
+        Ok(g) => g,
+        Err(p) => {
+            rec.fail(format!("{}|{}|panic|{},{}", P, site, rc, verdict.class()), case(), format!("panic: {}", p), "Ok or Err, never a panic");
+            return;
+        }
+    };
+    if prefix && radix != default_radix {
+        rec.hit("prefix-recognised");
+    }
+    match verdict {
+        Verdict::Accept(val) | Verdict::Lenient(val) => {
+            let strict = matches!(verdict, Verdict::Accept(_));
+            match got {
+                Ok((gneg, gval, gr)) => {
+                    rec.hit(if strict { "accept" } else { "unspecified:underscore-placement:accepted" });
+                    if neg && val != 0 {
+                        rec.hit("accept:negative");
+                    }
+                    if s.contains('_') && strict {
+                        rec.hit("accept:underscore-separated");
+                    }
+                    let want_neg = neg && val != 0;
+                    if gval != Some(val) || gneg != want_neg || gr != radix {
+                        rec.fail(
+                            format!("{}|{}|wrong-value|{},{}", P, site, rc, verdict.class()),
+                            case(),
+                            format!("Ok({}{:?}, radix {})", if gneg { "-" } else { "" }, gval, gr),
+                            format!("Ok({}{}, radix {})", if want_neg { "-" } else { "" }, val, radix),
+                        );
+                    }
+                }
+                Err(e) => {
+                    if strict {
+                        rec.fail(format!("{}|{}|rejected-valid|{},{}", P, site, rc, verdict.class()), case(), format!("Err({:?})", e), format!("Ok({}{})", if neg { "-" } else { "" }, val));
+                    } else {
+                        rec.hit("unspecified:underscore-placement:rejected");
+                    }
+                }
+            }
+        }
+        Verdict::Reject(kind) => match got {
+            Ok((gneg, gval, gr)) => {
+                rec.fail(
+                    // no radix class here: the decision "no digit at all" is made before the radix matters
+                    format!("{}|{}|accepted-malformed|{}", P, site, verdict.class()),
+                    case(),
+                    format!("Ok({}{:?}, radix {})", if gneg { "-" } else { "" }, gval, gr),
+                    match kind {
+                        Some(k) => format!("Err({:?})", k),
+                        None => "Err (the text contains no digit)".to_string(),
+                    },
+                );
+            }
+            Err(e) => {
+                rec.hit(&format!("reject:{}", verdict.class()));
+                match kind {
+                    Some(k) if k != e => rec.fail(format!("{}|{}|wrong-error|{},{}", P, site, rc, verdict.class()), case(), format!("Err({:?})", e), format!("Err({:?})", k)),
+                    None if e != ParseError::NoDigits && e != ParseError::InvalidDigit => rec.fail(format!("{}|{}|wrong-error|{},{}", P, site, rc, verdict.class()), case(), format!("Err({:?})", e), "Err(NoDigits) or Err(InvalidDigit)"),
+                    _ => {}
+                }
+            }
+        },
+    }
+}
+
+fn strings_case(rec: &mut Rec, s: &str) {
+    for r in [2u32, 8, 10, 16, 36] {
+        judge(rec, "UBig::from_str_radix", s, r, false, false, guard(|| UBig::from_str_radix(s, r).map(|x| read_u(&x, r))));
+        judge(rec, "IBig::from_str_radix", s, r, true, false, guard(|| IBig::from_str_radix(s, r).map(|x| read_i(&x, r))));
+    }
+    judge(rec, "UBig::from_str", s, 10, false, false, guard(|| s.parse::<UBig>().map(|x| read_u(&x, 10))));
+    judge(rec, "IBig::from_str", s, 10, true, false, guard(|| s.parse::<IBig>().map(|x| read_i(&x, 10))));
+    judge(rec, "UBig::from_str_with_radix_prefix", s, 10, false, true, guard(|| UBig::from_str_with_radix_prefix(s).map(|(x, r)| read_u(&x, r))));
+    judge(rec, "IBig::from_str_with_radix_prefix", s, 10, true, true, guard(|| IBig::from_str_with_radix_prefix(s).map(|(x, r)| read_i(&x, r))));
+    if !s.is_empty() {
+        rec.nontrivial();
+    }
+}
+
+fn prefix_strings_case(rec: &mut Rec, s: &str) {
+    judge(rec, "UBig::from_str_with_radix_prefix", s, 10, false, true, guard(|| UBig::from_str_with_radix_prefix(s).map(|(x, r)| read_u(&x, r))));
+    judge(rec, "IBig::from_str_with_radix_prefix", s, 10, true, true, guard(|| IBig::from_str_with_radix_prefix(s).map(|(x, r)| read_i(&x, r))));
+    for d in [16u32, 36] {
+        judge(rec, "UBig::from_str_with_radix_default", s, d, false, true, guard(|| UBig::from_str_with_radix_default(s, d).map(|(x, r)| read_u(&x, r))));
+        judge(rec, "IBig::from_str_with_radix_default", s, d, true, true, guard(|| IBig::from_str_with_radix_default(s, d).map(|(x, r)| read_i(&x, r))));
+    }
+    if !s.is_empty() {
+        rec.nontrivial();
+    }
+}
+
+// ---------------------------------------------------------------------------------------------
+// (d) bytes
+
+fn mag_kind(m: &BigUint) -> &'static str {
+    if m.is_zero() {
+        return "zero";
+    }
+    let bits = m.bits();
+    if m.count_ones() == 1 {
+        let k = bits - 1;
+        if k % 8 == 0 {
+            return "2^(8k)";
+        }
+        if k % 8 == 7 {
+            return "2^(8k-1)";
+        }
+        return "2^other";
+    }
+    if m.count_ones() == bits {
+        if bits % 8 == 0 {
+            return "2^(8k)-1";
+        }
+        if bits % 8 == 7 {
+            return "2^(8k-1)-1";
+        }
+    }
+    "other"
+}
+
+fn show_bytes(b: &[u8]) -> String {
+    let mut s = String::from("[");
+    for (i, x) in b.iter().enumerate() {
+        if i > 0 {
+            s.push(' ');
+        }
+        s += &format!("{:02x}", x);
+    }
+    s.push(']');
+    trunc(&s, 400)
+}
+
+fn bytes_value_case(rec: &mut Rec, v: &BigInt) {
+    let mag = v.magnitude();
+    let class = format!("{}{},{}", if is_neg(v) { "-" } else { "+" }, size_class(word_len(mag)), mag_kind(mag));
+    let class = class.as_str();
+    let iv = ref_to_i(v);
+    let min_le = if v.is_zero() { vec![] } else { v.to_signed_bytes_le() };
+    for be in [false, true] {
+        let (to_site, from_site) = if be { ("IBig::to_be_bytes", "IBig::from_be_bytes") } else { ("IBig::to_le_bytes", "IBig::from_le_bytes") };
+        let case = || format!("{}({})", to_site, hex(v));
+        rec.step();
+        match guard(|| if be { iv.to_be_bytes().to_vec() } else { iv.to_le_bytes().to_vec() }) {
+            Err(p) => rec.fail(format!("{}|{}|panic|{}", P, to_site, class), case(), format!("panic: {}", p), "two's complement bytes"),
+            Ok(bytes) => {
+                let decoded = if be { BigInt::from_signed_bytes_be(&bytes) } else { BigInt::from_signed_bytes_le(&bytes) };
+                if &decoded != v || (v.is_zero() && !bytes.is_empty()) {
+                    rec.fail(
+                        format!("{}|{}|wrong-value|{}", P, to_site, class),
+                        case(),
+                        format!("{} = two's complement of {}", show_bytes(&bytes), hex(&decoded)),
+                        format!("bytes that decode to {} (e.g. {})", hex(v), show_bytes(&if be { min_le.iter().rev().copied().collect::<Vec<_>>() } else { min_le.clone() })),
+                    );
+                } else {
+                    rec.hit(if bytes.len() == min_le.len() { "signed:minimal-length" } else { "unspecified:signed-non-minimal-length" });
+                    // inverse
+                    let back = guard(|| if be { IBig::from_be_bytes(&bytes) } else { IBig::from_le_bytes(&bytes) });
+                    expect_i(rec, P, &format!("{}(to)", from_site), class, back, v, || format!("{}({})", from_site, show_bytes(&bytes)));
+                }
+            }
+        }
+        // decoding the reference's minimal encoding
+        let enc: Vec<u8> = if be { min_le.iter().rev().copied().collect() } else { min_le.clone() };
+        expect_i(rec, P, from_site, class, guard(|| if be { IBig::from_be_bytes(&enc) } else { IBig::from_le_bytes(&enc) }), v, || format!("{}({})", from_site, show_bytes(&enc)));
+    }
+    if !is_neg(v) {
+        let uv = ref_to_u(mag);
+        let min_le = if mag.is_zero() { vec![] } else { mag.to_bytes_le() };
+        for be in [false, true] {
+            let (to_site, from_site) = if be { ("UBig::to_be_bytes", "UBig::from_be_bytes") } else { ("UBig::to_le_bytes", "UBig::from_le_bytes") };
+            let case = || format!("{}({})", to_site, hex(v));
+            rec.step();
+            match guard(|| if be { uv.to_be_bytes().to_vec() } else { uv.to_le_bytes().to_vec() }) {
+                Err(p) => rec.fail(format!("{}|{}|panic|{}", P, to_site, class), case(), format!("panic: {}", p), "bytes"),
+                Ok(bytes) => {
+                    let decoded = if be { BigUint::from_bytes_be(&bytes) } else { BigUint::from_bytes_le(&bytes) };
+                    if &decoded != mag || (mag.is_zero() && !bytes.is_empty()) {
+                        rec.fail(format!("{}|{}|wrong-value|{}", P, to_site, class), case(), format!("{} = {}", show_bytes(&bytes), hexu(&decoded)), format!("bytes of {}", hexu(mag)));
+                    } else {
+                        rec.hit(if bytes.len() == min_le.len() { "unsigned:minimal-length" } else { "unspecified:unsigned-non-minimal-length" });
+                        let back = guard(|| if be { UBig::from_be_bytes(&bytes) } else { UBig::from_le_bytes(&bytes) });
+                        expect_u(rec, P, &format!("{}(to)", from_site), class, back, mag, || format!("{}({})", from_site, show_bytes(&bytes)));
+                    }
+                }
+            }
+        }
+    }
+    if is_neg(v) {
+        rec.hit("negative");
+        if mag.count_ones() == 1 {
+            rec.hit("negative-power-of-two");
+        }
+    }
+    if mag > &BigUint::one() {
+        rec.nontrivial();
+    }
+}
+
+fn bytes_from_case(rec: &mut Rec, le: &[u8]) {
+    let be: Vec<u8> = le.iter().rev().copied().collect();
+    let class = format!("len{}{}", match le.len() {
+        0 => "=0",
+        1..=8 => "<=8",
+        9..=16 => "<=16",
+        _ => ">16",
+    }, match le.last() {
+        Some(t) if *t >= 0x80 => ",top-bit-set",
+        Some(0) => ",top-byte-zero",
+        _ => "",
+    });
+    let class = class.as_str();
+    let want_u = BigUint::from_bytes_le(le);
+    let want_i = BigInt::from_signed_bytes_le(le);
+    expect_u(rec, P, "UBig::from_le_bytes", class, guard(|| UBig::from_le_bytes(le)), &want_u, || format!("UBig::from_le_bytes({})", show_bytes(le)));
+    expect_u(rec, P, "UBig::from_be_bytes", class, guard(|| UBig::from_be_bytes(&be)), &want_u, || format!("UBig::from_be_bytes({})", show_bytes(&be)));
+    expect_i(rec, P, "IBig::from_le_bytes", class, guard(|| IBig::from_le_bytes(le)), &want_i, || format!("IBig::from_le_bytes({})", show_bytes(le)));
+    expect_i(rec, P, "IBig::from_be_bytes", class, guard(|| IBig::from_be_bytes(&be)), &want_i, || format!("IBig::from_be_bytes({})", show_bytes(&be)));
+    if is_neg(&want_i) {
+        rec.hit("decodes-negative");
+    }
+    if le.len() >= 2 && (le[le.len() - 1] == 0 || (le[le.len() - 1] == 0xff && le[le.len() - 2] >= 0x80)) {
+        rec.hit("non-minimal-input");
+    }
+    if !le.is_empty() {
+        rec.nontrivial();
+    }
+}
+
+const BYTE_PATTERNS: [&str; 11] = ["zeros", "ff", "top80", "top7f_ff", "top01", "lcg", "topff_zeros", "top00_lcg", "topff_lcg", "top80_lcg", "lcgSeed"];
+
+fn byte_pattern(len: usize, pat: &str, seed: u64) -> Vec<u8> {
+    let mut st = Mix(0x5EED_0000 ^ (len as u64) << 8 ^ if pat == "lcgSeed" { seed.wrapping_mul(0x9E37_79B9_7F4A_7C15) | 1 } else { 0 });
+    let mut v: Vec<u8> = (0..len).map(|_| st.next() as u8).collect();
+    if len == 0 {
+        return v;
+    }
+    let top = len - 1;
+    match pat {
+        "zeros" => v.iter_mut().for_each(|x| *x = 0),
+        "ff" => v.iter_mut().for_each(|x| *x = 0xff),
+        "top80" => {
+            v.iter_mut().for_each(|x| *x = 0);
+            v[top] = 0x80;
+        }
+        "top7f_ff" => {
+            v.iter_mut().for_each(|x| *x = 0xff);
+            v[top] = 0x7f;
+        }
+        "top01" => {
+            v.iter_mut().for_each(|x| *x = 0);
+            v[top] = 1;
+        }
+        "topff_zeros" => {
+            v.iter_mut().for_each(|x| *x = 0);
+            v[top] = 0xff;
+        }
+        "top00_lcg" => v[top] = 0,
+        "topff_lcg" => v[top] = 0xff,
+        "top80_lcg" => v[top] = 0x80,
+        _ => {}
+    }
+    v
+}
+
+// ---------------------------------------------------------------------------------------------
+// (e) chunks
+
+fn chunk_class(m: &BigUint, b: usize) -> String {
+    let words = word_len(m);
+    let aligned = b % WBITS == 0;
+    format!("{},{},{}", if aligned { "word-aligned" } else { "unaligned" }, if words <= 2 { "inline" } else { "heap" }, if aligned && words % (b / WBITS) != 0 { "ragged-last-chunk" } else { "regular" })
+}
+
+fn chunks_case(rec: &mut Rec, m: &BigUint, b: usize) {
+    let aligned = b % WBITS == 0;
+    let class = chunk_class(m, b);
+    let class = class.as_str();
+    let uv = ref_to_u(m);
+    let case = || format!("{}.to_chunks({})", hexu(m), b);
+    rec.step();
+    let chunks = match guard(|| uv.to_chunks(b).to_vec()) {
+        Err(p) => {
+            rec.fail(format!("{}|UBig::to_chunks|panic|{}", P, class), case(), format!("panic: {}", p), "the bit chunks");
+            return;
+        }
+        Ok(c) => c,
+    };
+    let count = ((m.bits() as usize) + b - 1) / b;
+    let mask = (BigUint::one() << b) - 1u32;
+    let mut ok = true;
+    for (i, c) in chunks.iter().enumerate() {
+        let want = (m >> (i * b)) & &mask;
+        let g = u_to_ref(c);
+        if g != want {
+            ok = false;
+            rec.fail(format!("{}|UBig::to_chunks|wrong-value|{}", P, class), case(), format!("chunk {} = {}", i, hexu(&g)), format!("chunk {} = {} (< 2^{})", i, hexu(&want), b));
+            break;
+        }
+    }
+    if ok && chunks.len() < count {
+        ok = false;
+        rec.fail(format!("{}|UBig::to_chunks|wrong-value|{}", P, class), case(), format!("{} chunks", chunks.len()), format!("{} chunks", count));
+    }
+    if ok && chunks.len() > count {
+        rec.hit("unspecified:extra-zero-chunks");
+    }
+    if ok {
+        rec.hit(if count > 1 { "multi-chunk" } else { "single-chunk" });
+        if aligned {
+            rec.hit("word-aligned");
+        }
+        let back = guard(|| UBig::from_chunks(chunks.iter(), b));
+        expect_u(rec, P, "UBig::from_chunks(to_chunks)", class, back, m, || format!("from_chunks(to_chunks({}, {}), {})", hexu(m), b, b));
+    }
+    if !m.is_zero() {
+        rec.nontrivial();
+    }
+}
+
+fn from_chunks_case(rec: &mut Rec, cs: &[&BigUint], b: usize) {
+    let mut want = BigUint::zero();
+    for (i, c) in cs.iter().enumerate() {
+        want += (*c) << (i * b);
+    }
+    let ucs: Vec<UBig> = cs.iter().map(|c| ref_to_u(c)).collect();
+    let fits = cs.iter().all(|c| c.bits() as usize <= b);
+    let class = format!("{},{}", if b % WBITS == 0 { "word-aligned" } else { "unaligned" }, if fits { "chunks-fit" } else { "chunks-overlap" });
+    let case = || format!("from_chunks([{}], {})", cs.iter().map(|c| hexu(c)).collect::<Vec<_>>().join(", "), b);
+    let got = guard(|| UBig::from_chunks(ucs.iter(), b));
+    let ok = expect_u(rec, P, "UBig::from_chunks", &class, got, &want, case);
+    rec.hit(if fits { "chunks-fit" } else { "chunks-overlap" });
+    if ok && fits && !cs.last().map_or(true, |c| c.is_zero()) {
+        // other direction of the inverse: to_chunks(from_chunks(cs)) == cs
+        rec.step();
+        rec.hit("inverse-other-direction");
+        let w = ref_to_u(&want);
+        match guard(|| w.to_chunks(b).to_vec()) {
+            Ok(back) => {
+                let same = back.len() == cs.len() && back.iter().zip(cs.iter()).all(|(x, y)| &u_to_ref(x) == *y);
+                if !same {
+                    rec.fail(format!("{}|UBig::to_chunks(from_chunks)|wrong-value|{}", P, class), case(), format!("{:?}", back.iter().map(|x| hexu(&u_to_ref(x))).collect::<Vec<_>>()), "the original chunks");
+                }
+            }
+            // same call as in chunks.roundtrip: same signature
+            Err(p) => rec.fail(format!("{}|UBig::to_chunks|panic|{}", P, chunk_class(&want, b)), format!("{}.to_chunks({})", hexu(&want), b), format!("panic: {}", p), "the bit chunks"),
+        }
+    }
+    rec.nontrivial();
+}
+
+
+// ---------------------------------------------------------------------------------------------
+// universes
+
+/// digit counts on both sides of the per-word, fmt-chunk (16 groups), parse-chunk (256 groups)
+/// and divide-and-conquer thresholds, for the 64-bit and the 32-bit word tables alike
+fn digit_counts(r: u32, quick: bool) -> Vec<usize> {
+    let mut v = BTreeSet::new();
+    for wb in [64usize, 32] {
+        let d = dpw(r, wb);
+        let ks: Vec<usize> = if r.is_power_of_two() {
+            vec![1, 2, 3, 5, 16, 17]
+        } else if wb == 64 {
+            if quick {
+                vec![1, 2, 3, 15, 16, 17, 32, 33, 64, 256, 257, 512]
+            } else {
+                vec![1, 2, 3, 4, 15, 16, 17, 31, 32, 33, 64, 65, 128, 129, 255, 256, 257, 511, 512, 513, 1024, 2048]
+            }
+        } else if quick {
+            vec![1, 2, 16, 32, 256, 512]
+        } else {
+            vec![1, 2, 16, 32, 64, 256, 512, 1024]
+        };
+        for k in ks {
+            for dl in [-1i64, 0, 1] {
+                let n = (k * d) as i64 + dl;
+                if n >= 1 {
+                    v.insert(n as usize);
+                }
+            }
+        }
+        // three radix powers in the parser's divide and conquer (19 457 decimal digits)
+        if !r.is_power_of_two() && wb == 64 {
+            v.insert(1024 * d);
+            v.insert(1024 * d + 1);
+        }
+    }
+    v.into_iter().collect()
+}
+
+const DIGIT_PATTERNS: [&str; 6] = ["p10", "max", "p10p1", "lcg", "lcgz", "lcgSeed"];
+
+fn digit_string(r: u32, n: usize, pat: &str, seed: u64) -> String {
+    let ch = |d: u32| std::char::from_digit(d, r).unwrap();
+    let mut s = String::with_capacity(n);
+    match pat {
+        "p10" => {
+            s.push('1');
+            (1..n).for_each(|_| s.push('0'));
+        }
+        "max" => (0..n).for_each(|_| s.push(ch(r - 1))),
+        "p10p1" => {
+            s.push('1');
+            if n >= 2 {
+                (2..n).for_each(|_| s.push('0'));
+                s.push('1');
+            }
+        }
+        _ => {
+            let mut st = Mix((r as u64) << 40 ^ (n as u64) << 4 ^ if pat == "lcgSeed" { seed.wrapping_mul(0xD1B5_4A32_D192_ED03) | 1 } else { 0 });
+            for i in 0..n {
+                let mut d = (st.next() % r as u64) as u32;
+                if i == 0 && d == 0 {
+                    d = 1;
+                }
+                if pat == "lcgz" && i >= n / 3 && i < 2 * n / 3 && i > 0 {
+                    d = 0;
+                }
+                s.push(ch(d));
+            }
+        }
+    }
+    s
+}
+
+fn sweep_hits(ctx: &Ctx, sweep: &str, class: &str) -> u64 {
+    ctx.sweeps.iter().find(|s| s.name == sweep).and_then(|s| s.classes.get(class).copied()).unwrap_or(0)
+}
+
+fn reference_self_check(ctx: &mut Ctx) {
+    // digits: BigUint::to_str_radix vs schoolbook on u32 limbs vs Rust's primitive formatting
+    let mut vals: Vec<BigUint> = vec![BigUint::zero(), BigUint::one(), BigUint::from(255u32), BigUint::from(u64::MAX), BigUint::from(u128::MAX)];
+    vals.push(shape(3, "lcgA", 0));
+    vals.push(shape(40, "lcgB", 0));
+    vals.push(shape(17, "sparse", 0));
+    for v in &vals {
+        for r in 2..=36u32 {
+            let a = v.to_str_radix(r);
+            if a != slow_digits(v, r) {
+                ctx.machinery(format!("reference self-check failed: to_str_radix vs schoolbook digits, radix {}", r));
+            }
+            if BigUint::parse_bytes(a.as_bytes(), r).as_ref() != Some(v) || BigUint::parse_bytes(a.to_ascii_uppercase().as_bytes(), r).as_ref() != Some(v) {
+                ctx.machinery(format!("reference self-check failed: parse_bytes(to_str_radix) radix {}", r));
+            }
+        }
+        if let Some(p) = v.to_u128() {
+            if v.to_str_radix(10) != format!("{}", p) || v.to_str_radix(2) != format!("{:b}", p) || v.to_str_radix(8) != format!("{:o}", p) || v.to_str_radix(16) != format!("{:x}", p) {
+                ctx.machinery("reference self-check failed: to_str_radix vs primitive formatting");
+            }
+        }
+    }
+    // layout model vs Rust's own formatting of primitives
+    let widths = WIDTHS_T;
+    for p in [0u128, 1, 255, u64::MAX as u128, 1 << 64, u128::MAX] {
+        let b = BigUint::from(p);
+        for (s, text) in layouts_all(&p, &widths) {
+            let (digits, prefix) = match s.ty {
+                "" => (b.to_str_radix(10), ""),
+                "b" => (b.to_str_radix(2), "0b"),
+                "o" => (b.to_str_radix(8), "0o"),
+                "x" => (b.to_str_radix(16), "0x"),
+                _ => (b.to_str_radix(16).to_ascii_uppercase(), "0x"),
+            };
+            if pad_integral(&s, true, prefix, &digits) != text {
+                ctx.machinery(format!("reference self-check failed: pad_integral model vs format!(\"{}\", {}u128) = {:?}", s.show(), p, text));
+                return;
+            }
+        }
+    }
+    for p in [-1i128, -255, -(1 << 64), i128::MIN, i128::MAX, 0] {
+        let digits = BigInt::from(p).magnitude().to_str_radix(10);
+        for (s, text) in layouts_display(&p, &widths) {
+            if pad_integral(&s, p >= 0, "", &digits) != text {
+                ctx.machinery(format!("reference self-check failed: pad_integral model vs format!(\"{}\", {}i128) = {:?}", s.show(), p, text));
+                return;
+            }
+        }
+    }
+    // grammar model on the library's own documented examples
+    let ex: [(&str, u32, bool, bool, Verdict, bool, u32); 10] = [
+        ("+7ab", 32, false, false, Verdict::Accept(7499), false, 32),
+        ("-7ab", 32, true, false, Verdict::Accept(7499), true, 32),
+        ("+0o17", 10, false, true, Verdict::Accept(15), false, 8),
+        ("-0x1f", 10, true, true, Verdict::Accept(31), true, 16),
+        ("1_23_45", 10, false, false, Verdict::Accept(12345), false, 10),
+        ("", 2, false, false, Verdict::Reject(Some(ParseError::NoDigits)), false, 2),
+        ("-", 2, true, false, Verdict::Reject(Some(ParseError::NoDigits)), true, 2),
+        ("-0", 2, false, false, Verdict::Reject(Some(ParseError::InvalidDigit)), false, 2),
+        ("-+5", 2, true, false, Verdict::Reject(Some(ParseError::InvalidDigit)), true, 2),
+        ("0b102", 10, false, true, Verdict::Reject(Some(ParseError::InvalidDigit)), false, 2),
+    ];
+    for (s, r, minus, pre, want, wneg, wr) in ex {
+        if verdict(s, r, minus, pre) != (wneg, wr, want) {
+            ctx.machinery(format!("reference self-check failed: grammar model on documented example {:?}", s));
+        }
+    }
+    // byte reference vs i128
+    for x in [0i128, 1, -1, 127, 128, -128, -129, 255, 256, -256, -(1 << 64), (1 << 64), i128::MIN + 1] {
+        let b = BigInt::from(x);
+        let le = b.to_signed_bytes_le();
+        let mut full = x.to_le_bytes().to_vec();
+        while full.len() > le.len() {
+            full.pop();
+        }
+        if le != full || BigInt::from_signed_bytes_le(&x.to_le_bytes()) != b || BigInt::from_signed_bytes_be(&x.to_be_bytes()) != b {
+            ctx.machinery(format!("reference self-check failed: signed bytes of {}", x));
+        }
+    }
+    if !BigInt::from_signed_bytes_le(&[]).is_zero() || !BigUint::from_bytes_le(&[]).is_zero() {
+        ctx.machinery("reference self-check failed: empty byte string");
+    }
+}
 
 pub fn run(ctx: &mut Ctx) {
-    ctx.machinery("check C07 is not built yet");
+    ctx.rule = "(a) every value of signed I3 (<=3 64-bit words over the 9-atom alphabet), of a shape universe (length classes around the inline/heap, 16-group formatter and 256-group parser thresholds x word patterns) and of a digit-directed universe (per radix: digit counts k*digits_per_word+{-1,0,1} for k on both sides of every converter threshold x 6 digit patterns) x all 35 radices: each print form against reference digits, each parse form of the printed text (lower, upper, mixed case, +, underscores, leading zeros, prefix) against the value; Debug against the true leading/trailing digits. (b) every combination of fill/align (7) x + x # x 0 x width list x {Display,b,o,x,X} on UBig/IBig and x 35 radices on InRadix, compared character by character with a pad_integral model and with Rust's own formatting of u128/i128 where the value fits. (c) every string of length <= L over an 18-symbol alphabet through from_str_radix (radix 2,8,10,16,36), FromStr and from_str_with_radix_prefix, and over a 16-symbol prefix alphabet through the *_with_radix_* functions: accepted <=> in the documented grammar, value == reference. (d) to/from le/be bytes on +-(2^(8k)+{-1,0,1}), +-(2^(8k-1)+{-1,0,1}), I3, shapes; from_* on all byte strings of length <= 2 (3 thorough) and structured strings up to 33 (66) bytes. (e) to_chunks/from_chunks for a chunk-size list on values of 1..5 (9) words and from_chunks on overlapping chunk triples. non-trivial = |value| > 1, non-empty string / byte string".into();
+    ctx.assume("num_bigint 0.4 to_str_radix/parse_bytes/from_(signed_)bytes are a correct reference (cross-checked in every run against a schoolbook digit conversion, Rust's primitive formatting and i128 byte encodings)");
+    ctx.assume("the layout oracle is a re-implementation of Formatter::pad_integral from the std::fmt documentation, cross-checked in every run against Rust's formatting of u128/i128 for every flag combination");
+    ctx.assume("grammar: sign? (0b|0o|0x)? digit ('_'? digit)*; underscores in other positions (leading, trailing, doubled) are not specified and only the value is judged when such text is accepted; a body without any digit must be rejected (ParseError::NoDigits = \"No digits in the string\")");
+    ctx.assume("byte and chunk encodings are judged by decodability to the same value (mutual inverse), not by minimal length; Debug is judged by 'leading digits..trailing digits' being true prefixes/suffixes of the decimal expansion, not by how many digits are shown");
+    reference_self_check(ctx);
+    let quick = ctx.quick();
+    let seed = ctx.seed;
+
+    // ------------------------------------------------------------------ (a) closed universe
+    let i3 = signed(&i3_mags());
+    let ni3 = i3.len() as u64;
+    ctx.bound("I3_values", ni3);
+    ctx.bound("radices", "2..=36 (all 35)");
+    let i3r = &i3;
+    ctx.sweep("text.I3", ni3 * 35, |i, rec| {
+        let (v, r) = (&i3r[(i / 35) as usize], 2 + (i % 35) as u32);
+        text_case(rec, v, r, None, Depth::Full);
+        rec.sample(|| format!("{} printed and re-parsed in radix {}", hex(v), r));
+    });
+    ctx.require_classes("text.I3", &["fmt:word", "fmt:dword", "fmt:medium", "fmt:large-pow2", "parse:word", "parse:chunk", "parse:large-pow2", "debug:full", "debug:abbreviated"]);
+
+    // ------------------------------------------------------------------ (a) shape universe
+    let lens: Vec<usize> = ctx.pick(
+        vec![1, 2, 3, 4, 5, 6, 7, 8, 13, 14, 15, 16, 17, 31, 32, 33, 64, 65, 129, 255, 256, 257, 513],
+        vec![1, 2, 3, 4, 5, 6, 7, 8, 9, 12, 13, 14, 15, 16, 17, 18, 30, 31, 32, 33, 34, 63, 64, 65, 66, 127, 128, 129, 130, 255, 256, 257, 511, 512, 513, 1023, 1024, 1025],
+    );
+    ctx.bound("shape_lengths_words", serde_json::json!(lens));
+    let mut svals: Vec<BigInt> = vec![];
+    for (k, s) in shapes(&lens, &PATTERNS, seed).into_iter().enumerate() {
+        if s.len <= 17 {
+            svals.push(BigInt::from(s.v.clone()));
+            svals.push(-BigInt::from(s.v));
+        } else if k % 2 == 0 {
+            svals.push(BigInt::from(s.v));
+        } else {
+            svals.push(-BigInt::from(s.v));
+        }
+    }
+    let nsv = svals.len() as u64;
+    ctx.bound("shape_values", nsv);
+    let svr = &svals;
+    ctx.sweep("text.shape", nsv * 35, |i, rec| {
+        let (v, r) = (&svr[(i / 35) as usize], 2 + (i % 35) as u32);
+        let depth = if word_len(v.magnitude()) * WBITS <= 17 * 64 { Depth::Full } else { Depth::Lean };
+        text_case(rec, v, r, None, depth);
+        rec.sample(|| format!("{} printed and re-parsed in radix {}", hex(v), r));
+    });
+    ctx.require_classes("text.shape", &["fmt:medium", "fmt:large:top-only", "fmt:large:dc1", "fmt:large:dc2", "fmt:large:dc3", "fmt:large:dc4", "fmt:large-pow2", "parse:chunk", "parse:dc1", "debug:abbreviated"]);
+
+    // ------------------------------------------------------------------ (a) digit-directed universe
+    let mut dcases: Vec<(u32, usize, &'static str)> = vec![];
+    for r in 2..=36u32 {
+        for n in digit_counts(r, quick) {
+            for p in DIGIT_PATTERNS {
+                if n == 1 && p != "p10" && p != "max" {
+                    continue;
+                }
+                dcases.push((r, n, p));
+            }
+        }
+    }
+    ctx.bound("digit_counts_radix10", serde_json::json!(digit_counts(10, quick)));
+    ctx.bound("digit_patterns", serde_json::json!(DIGIT_PATTERNS));
+    let dcr = &dcases;
+    ctx.sweep("text.digits", dcases.len() as u64, |i, rec| {
+        let (r, n, p) = dcr[i as usize];
+        let s = digit_string(r, n, p, seed);
+        let m = match BigUint::parse_bytes(s.as_bytes(), r) {
+            Some(m) if m.to_str_radix(r) == s => m,
+            _ => {
+                rec.hit("ref-selfcheck-failed");
+                return;
+            }
+        };
+        // alternate the sign with the index
+        let v = if i % 2 == 0 { BigInt::from(m) } else { -BigInt::from(m) };
+        let depth = if n <= 40 * dpw(r, 64) { Depth::Full } else { Depth::Lean };
+        text_case(rec, &v, r, Some(&s), depth);
+        rec.sample(|| format!("{} digits, pattern {}, radix {}: {}", n, p, r, trunc(&s, 60)));
+    });
+    if sweep_hits(ctx, "text.digits", "ref-selfcheck-failed") != 0 {
+        ctx.machinery("reference self-check failed inside text.digits: num_bigint parse_bytes/to_str_radix disagree on a constructed digit string");
+    }
+    ctx.require_classes("text.digits", &["fmt:word", "fmt:dword", "fmt:medium", "fmt:large:top-only", "fmt:large:dc1", "fmt:large:dc2", "fmt:large:dc3", "fmt:large:dc4", "fmt:large:dc5", "fmt:large:dc6", "parse:word", "parse:chunk", "parse:dc1", "parse:dc2", "parse:dc3", "parse:underscores"]);
+
+    // ------------------------------------------------------------------ (b) flags
+    let widths: Vec<Option<usize>> = ctx.pick(WIDTHS_Q.to_vec(), WIDTHS_T.to_vec());
+    ctx.bound("widths", serde_json::json!(widths));
+    let mut fmags: Vec<BigUint> = vec![BigUint::zero(), BigUint::one(), BigUint::from(255u32), BigUint::from(u64::MAX), pow2(64), pow2(127) - 1u32, pow2(127), pow2(128) - 1u32, pow2(128), shape(3, "lcgA", seed), shape(20, "lcgB", seed)];
+    if !quick {
+        fmags.extend([BigUint::from(9u32), BigUint::from(10u32), BigUint::from(99_999u32), pow2(63), shape(2, "lcgA", seed), shape(5, "alt", seed), shape(16, "ones", seed), shape(20, "lcgSeed", seed)]);
+    }
+    let fvals = signed(&fmags);
+    let nf = fvals.len() as u64;
+    ctx.bound("flag_values", nf);
+    let (fvr, wr) = (&fvals, &widths);
+    ctx.sweep("flags.traits", nf, |i, rec| {
+        flags_traits_case(rec, &fvr[i as usize], wr);
+        rec.sample(|| format!("{} with 56 flag combinations x {} widths x 5 traits", hex(&fvr[i as usize]), wr.len()));
+    });
+    ctx.require_classes("flags.traits", &["pad:nowidth", "pad:fits", "pad:zero", "pad:default", "pad:left", "pad:center", "pad:right", "compared-with-primitive"]);
+    ctx.sweep("flags.in_radix", nf * 35, |i, rec| {
+        let (v, r) = (&fvr[(i / 35) as usize], 2 + (i % 35) as u32);
+        flags_in_radix_case(rec, v, r, wr);
+        rec.sample(|| format!("{} in_radix({}) with 56 flag combinations x {} widths", hex(v), r, wr.len()));
+    });
+    ctx.require_classes("flags.in_radix", &["pad:nowidth", "pad:fits", "pad:zero", "pad:default", "pad:left", "pad:center", "pad:right"]);
+
+    // ------------------------------------------------------------------ (c) strings
+    let l: u32 = ctx.pick(5, 6);
+    ctx.bound("string_alphabet", serde_json::json!(SIGMA.iter().collect::<String>()));
+    ctx.bound("string_max_len", l);
+    let total = count_strings(SIGMA.len() as u64, l);
+    ctx.sweep("parse.strings", total, |i, rec| {
+        let s = nth_string(i, &SIGMA);
+        strings_case(rec, &s);
+        rec.sample(|| format!("{:?} through from_str_radix(2,8,10,16,36), FromStr, from_str_with_radix_prefix", s));
+    });
+    ctx.require_classes("parse.strings", &["accept", "accept:negative", "accept:underscore-separated", "reject:empty", "reject:invalid-char", "prefix-recognised"]);
+    let lp: u32 = ctx.pick(5, 6);
+    ctx.bound("prefix_alphabet", serde_json::json!(SIGMA_PREFIX.iter().collect::<String>()));
+    let totalp = count_strings(SIGMA_PREFIX.len() as u64, lp);
+    ctx.sweep("parse.prefix-strings", totalp, |i, rec| {
+        let s = nth_string(i, &SIGMA_PREFIX);
+        prefix_strings_case(rec, &s);
+        rec.sample(|| format!("{:?} through from_str_with_radix_prefix / _default(16, 36)", s));
+    });
+    ctx.require_classes("parse.prefix-strings", &["accept", "accept:negative", "accept:underscore-separated", "reject:empty", "reject:invalid-char", "prefix-recognised"]);
+
+    // ------------------------------------------------------------------ documented radix range
+    let bad = [0u32, 1, 37, 64, u32::MAX];
+    ctx.sweep("radix.invalid", bad.len() as u64, |i, rec| {
+        let r = bad[i as usize];
+        let class = "radix-outside-2..=36";
+        for s in ["1", "", "zz", "-1"] {
+            expect_eq(rec, P, "UBig::from_str_radix", class, guard(|| UBig::from_str_radix(s, r).map(|x| u_to_ref(&x))), &Err(ParseError::UnsupportedRadix), || format!("UBig::from_str_radix({:?}, {})", s, r));
+            expect_eq(rec, P, "IBig::from_str_radix", class, guard(|| IBig::from_str_radix(s, r).map(|x| i_to_ref(&x))), &Err(ParseError::UnsupportedRadix), || format!("IBig::from_str_radix({:?}, {})", s, r));
+        }
+        let (u, iv) = (UBig::from(5u8), IBig::from(-5));
+        expect_panic(rec, P, "UBig::in_radix", class, guard(|| format!("{}", u.in_radix(r))), || format!("5.in_radix({})", r));
+        expect_panic(rec, P, "IBig::in_radix", class, guard(|| format!("{}", iv.in_radix(r))), || format!("(-5).in_radix({})", r));
+        rec.hit("invalid-radix");
+        rec.nontrivial();
+    });
+    ctx.require_classes("radix.invalid", &["invalid-radix"]);
+
+    // ------------------------------------------------------------------ (d) bytes
+    let kmax: u64 = ctx.pick(40, 80);
+    ctx.bound("byte_boundary_k_max", kmax);
+    let mut bmags: BTreeSet<BigUint> = BTreeSet::new();
+    for k in 1..=kmax {
+        for e in [8 * k, 8 * k - 1] {
+            bmags.insert(pow2(e) - 1u32);
+            bmags.insert(pow2(e));
+            bmags.insert(pow2(e) + 1u32);
+        }
+    }
+    for m in i3_mags() {
+        bmags.insert(m);
+    }
+    for s in shapes(&ctx.pick(vec![3, 4, 5, 17], vec![3, 4, 5, 6, 9, 17, 33, 65]), &PATTERNS, seed) {
+        bmags.insert(s.v);
+    }
+    let bvals = signed(&bmags.into_iter().collect::<Vec<_>>());
+    let nb = bvals.len() as u64;
+    ctx.bound("byte_values", nb);
+    let bvr = &bvals;
+    ctx.sweep("bytes.values", nb, |i, rec| {
+        bytes_value_case(rec, &bvr[i as usize]);
+        rec.sample(|| format!("{} to/from le/be bytes", hex(&bvr[i as usize])));
+    });
+    ctx.require_classes("bytes.values", &["negative", "negative-power-of-two", "signed:minimal-length", "unsigned:minimal-length"]);
+
+    let ball: u32 = ctx.pick(2, 3);
+    ctx.bound("all_byte_strings_max_len", ball);
+    let nall = count_strings(256, ball);
+    ctx.sweep("bytes.from.all", nall, |i, rec| {
+        // i-th byte string, shortest first
+        let (mut i, mut len, mut block) = (i, 0usize, 1u64);
+        while i >= block {
+            i -= block;
+            block *= 256;
+            len += 1;
+        }
+        let mut le = vec![0u8; len];
+        for b in le.iter_mut() {
+            *b = (i % 256) as u8;
+            i /= 256;
+        }
+        bytes_from_case(rec, &le);
+        rec.sample(|| format!("from_le/be_bytes({})", show_bytes(&le)));
+    });
+    ctx.require_classes("bytes.from.all", &["decodes-negative", "non-minimal-input"]);
+    let slen: usize = ctx.pick(33, 66);
+    ctx.bound("structured_byte_strings_max_len", slen);
+    let nstruct = ((slen + 1) * BYTE_PATTERNS.len()) as u64;
+    ctx.sweep("bytes.from.structured", nstruct, |i, rec| {
+        let (len, pat) = ((i as usize) / BYTE_PATTERNS.len(), BYTE_PATTERNS[(i as usize) % BYTE_PATTERNS.len()]);
+        let le = byte_pattern(len, pat, seed);
+        bytes_from_case(rec, &le);
+        rec.sample(|| format!("{} bytes, pattern {}: {}", len, pat, show_bytes(&le)));
+    });
+    ctx.require_classes("bytes.from.structured", &["decodes-negative", "non-minimal-input"]);
+
+    // ------------------------------------------------------------------ (e) chunks
+    let cbits: Vec<usize> = ctx.pick(vec![1, 7, 8, 63, 64, 65, 100, 127, 128, 129, 192, 200], vec![1, 2, 3, 7, 8, 31, 32, 33, 63, 64, 65, 96, 100, 127, 128, 129, 191, 192, 193, 200, 256, 320, 1000]);
+    ctx.bound("chunk_bits", serde_json::json!(cbits));
+    let mut cmags: Vec<BigUint> = i3_mags();
+    for s in shapes(&ctx.pick(vec![1, 2, 3, 4, 5], vec![1, 2, 3, 4, 5, 6, 7, 8, 9]), &PATTERNS, seed) {
+        cmags.push(s.v);
+    }
+    let (nc, ncb) = (cmags.len() as u64, cbits.len() as u64);
+    ctx.bound("chunk_values", nc);
+    let (cmr, cbr) = (&cmags, &cbits);
+    ctx.sweep("chunks.roundtrip", nc * ncb, |i, rec| {
+        let (m, b) = (&cmr[(i / ncb) as usize], cbr[(i % ncb) as usize]);
+        chunks_case(rec, m, b);
+        rec.sample(|| format!("{}.to_chunks({}) and back", hexu(m), b));
+    });
+    ctx.require_classes("chunks.roundtrip", &["multi-chunk", "single-chunk", "word-aligned"]);
+    ctx.sweep("chunks.sum", 729 * ncb, |i, rec| {
+        let b = cbr[(i % ncb) as usize];
+        let pool: [BigUint; 9] = [BigUint::zero(), BigUint::one(), pow2(b as u64) - 1u32, pow2(b as u64), pow2(b as u64 + 3) + 5u32, BigUint::from(u64::MAX), pow2(64), pow2(130) + 1u32, shape(3, "lcgA", seed)];
+        let t = (i / ncb) as usize;
+        let cs = [&pool[t / 81], &pool[(t / 9) % 9], &pool[t % 9]];
+        from_chunks_case(rec, &cs, b);
+        rec.sample(|| format!("from_chunks of 3 chunks, chunk_bits {}", b));
+    });
+    ctx.require_classes("chunks.sum", &["chunks-fit", "chunks-overlap", "inverse-other-direction"]);
+    ctx.sweep("chunks.zero-bits", 4, |i, rec| {
+        let v = [UBig::ZERO, UBig::ONE, UBig::from(u64::MAX), ref_to_u(&pow2(200))][i as usize].clone();
+        // "Panics if chunk_bits is zero" (both functions); the library raises it with assert!, so any
+        // panic is the documented one here
+        rec.step();
+        if let Ok(c) = guard(|| v.to_chunks(0).to_vec()) {
+            rec.fail(format!("{}|UBig::to_chunks|missing-panic|chunk_bits=0", P), format!("{}.to_chunks(0)", hexu(&u_to_ref(&v))), format!("returned {} chunks", c.len()), "panic (documented: chunk_bits is zero)");
+        }
+        let cs = [v.clone(), v.clone()];
+        rec.step();
+        if let Ok(x) = guard(|| UBig::from_chunks(cs.iter(), 0)) {
+            let h = hexu(&u_to_ref(&v));
+            rec.fail(format!("{}|UBig::from_chunks|missing-panic|chunk_bits=0", P), format!("from_chunks([{}, {}], 0)", h, h), format!("returned {}", hexu(&u_to_ref(&x))), "panic (documented: chunk_bits is zero)");
+        }
+        rec.hit("documented-panic");
+        rec.nontrivial();
+    });
 }
